@@ -172,6 +172,27 @@ fn drain(ctl: &mut Ctl, full: bool) {
             }
         }
     }
+    // once everything is quiescent, every attached reader calls once more: with the writer idle it must catch up
+    // with the latest completed publication (C03), whatever happened before
+    if !ctl.oracle.should_stop() {
+        for n in readers.iter() {
+            if ctl.procs[n].attached && ctl.procs[n].phase == Phase::Idle {
+                if ctl.start(n, Cmd::RCall).is_err() {
+                    continue;
+                }
+                let mut guard = 0;
+                while ctl.pending_of(n).is_some() && guard < 64 {
+                    guard += 1;
+                    if ctl.release(n, Directive::Proceed).is_err() {
+                        break;
+                    }
+                }
+                if ctl.pending_of(n).is_some() {
+                    let _ = ctl.release(n, Directive::Crash);
+                }
+            }
+        }
+    }
 }
 
 enum StepResult {
@@ -292,6 +313,9 @@ fn step(ctl: &mut Ctl, a: &str, p: &str, v: u64, exp: &Value, ra: bool, free: bo
         }
         "ROpen" => {
             let i = ctl.start(&name, Cmd::ROpen)?;
+            if i.done.is_none() {
+                return Ok(StepResult::Drift(format!("ShmReader::new accesses the mapped segment (parked at {:?}); the specification's open only reads the header from the file", i.pending), tr(&i)));
+            }
             let got = i.done.as_ref().map(|d| d.0.clone()).unwrap_or_default();
             let want = open_str(&exp["r"][p]["open"]);
             n += 1;
